@@ -7,6 +7,7 @@ import (
 
 	"pgregory.net/rapid"
 
+	"github.com/skycoin/skycoin/src/cipher/bip44"
 	"github.com/skycoin/skycoin/src/cipher/crypto"
 	"github.com/skycoin/skycoin/src/wallet"
 
@@ -41,6 +42,10 @@ func TestC17_RecoverKeepsAddresses(t *testing.T) {
 			opts.Seed = mnemonicN(seedIdx)
 			pass = rapid.SampledFrom([]string{"", "pp", "another passphrase"}).Draw(t, "passphrase")
 			opts.SeedPassphrase = pass
+			if rapid.IntRange(0, 2).Draw(t, "other_coin_path") == 1 {
+				ct := bip44.CoinTypeBitcoin // another bip44 coin path than the service's default: recovery must stay on it
+				opts.Bip44Coin = &ct
+			}
 		}
 		w, err := s.CreateWallet("w.wlt", opts)
 		if err != nil {
